@@ -122,6 +122,8 @@ type Exec struct {
 	clockNS           int64
 	inGo              int
 	parked            map[*Cell][]parkedGo
+	race              *raceState
+	fnStack           []*ssa.Function
 }
 
 func (x *Exec) unsupported(format string, a ...interface{}) {
@@ -459,6 +461,7 @@ type parkedGo struct {
 	fn   Value
 	args []Value
 	call *ssa.CallCommon
+	gid  int // race detection: the goroutine's id (0 = not assigned yet)
 }
 
 type blockedOnLock struct {
@@ -471,8 +474,18 @@ type blockedOnLock struct {
 func (x *Exec) runGoroutine(g parkedGo) {
 	x.inGo++
 	start := x.steps
+	depth, nfn := x.depth, len(x.fnStack)
+	if x.race != nil {
+		if g.gid == 0 {
+			g.gid = x.race.spawn()
+		}
+		saved := x.race.gid
+		x.race.gid = g.gid
+		defer func() { x.race.gid = saved }()
+	}
 	defer func() {
 		x.inGo--
+		x.depth, x.fnStack = depth, x.fnStack[:nfn]
 		if r := recover(); r != nil {
 			if b, ok := r.(blockedOnLock); ok {
 				if b.steps-start > 64 {
@@ -602,7 +615,8 @@ func (x *Exec) call(fn *ssa.Function, args []Value, env []Value) Value {
 	if x.depth > 200 {
 		x.unsupported("call depth exceeded in %s", fn)
 	}
-	defer func() { x.depth-- }()
+	x.fnStack = append(x.fnStack, fn)
+	defer func() { x.depth--; x.fnStack = x.fnStack[:len(x.fnStack)-1] }()
 	x.funcs[fn.String()]++
 	fr := &frame{fn: fn, regs: make(map[ssa.Value]Value, 32), visits: map[*ssa.BasicBlock]int{}}
 	for i, p := range fn.Params {
